@@ -189,6 +189,21 @@ CLAIMED = {
         note=TB + "Partial: the handler's own code is represented by its outcome; handlers swallowing cancellation and the limiter/timeouts around the handler are C13/C11.",
         technique="Coq proof (total case analysis + fold invariant over completion orders) + virtual-time session correspondence and oracle",
         ref='6/C03'),
+    'C18': dict(
+        text=("Proof (partial): the three regular expressions are regenerated from util.py on every run (AST, character classes "
+              "expanded under the pattern's flags by the real engine over all 0x110000 code points, anchor kind, call style); a "
+              "VERIFIED bisimulation checker (check_bisim_sound, regex derivatives vs a deterministic automaton, one "
+              "representative per class interval) proves that what re.match accepts equals the specification automaton, and each "
+              "automaton is proved equal to the English definition; hence is_valid_hostname = the host-name definition and "
+              "validate_protocol = the protocol definition for ALL strings; ports: only 1..65535 is ever returned, ints exactly, "
+              "every port printed in decimal is read back (kernel-evaluated table of all 65535 values); _split_address on "
+              "host:port and [anything]:port (closing bracket from the right). On the original tree the proofs did NOT go "
+              "through: Coq computed the distinguishing strings U+0130, '0\\n', 'A,' which replayed on the real code (F1-F3), "
+              "and the round trip failed for a scope id with ']' (F4); all four repaired by fix: commits. Partial: "
+              "ipaddress.ip_address and the NetAddress/Service composition are tied by the correspondence only."),
+        note=TB + "The re engine is trusted both as the translator's oracle for character classes and as the implementation; str.isdigit / int() tables are measured.",
+        technique="Coq proof: verified regex-vs-automaton bisimulation check re-run against regexes regenerated from the source + automaton-meaning inductions + finite tables by vm_compute; vm_compute correspondence; exhaustive one-character sweep",
+        ref='6/C18'),
 }
 
 REASONS = {}
